@@ -835,3 +835,103 @@ def _compare_iteration(ctx, g, ks, before, after, sm, seen):
                 ctx.diverge(f'kernel {k.name} (one iteration of the loop of {k.file}:{k.func}, {k.target}) vs implementation',
                             {'kernel': k.name, 'attrs': {kk: u2f(v) for kk, v in attrs.items()}, 'x': [u2f(x) for x in xs]},
                             f'implementation {want!r} vs translated kernel {have!r}')
+
+
+# --------------------------------------------------------------------------- vector kernels (third generation)
+def vec_scenarios(impl, rng, k):
+    """Yields (callable, args, kwargs) for one vector kernel: arguments in the order of the kernel's inputs are taken from the
+    bound call (arrays are copied before the call: the source may update them in place)."""
+    if k.file == 'BADA/fuel_burn_base.py':
+        mname = k.func.split('.')[1]
+        scalar_dx = not any((not isinstance(i, str)) and i[0] == 'segment_distance' for i in k.inputs)
+        for j in range(24):
+            n = int(rng.choice([1, 2, 2, 3, 5, 17, 60]))
+            eng = ['Jet', 'Turboprop', 'Piston'][j % 3]
+            ap = impl.Bada3AircraftParameters()
+            ap.assign_parameters_fromdict(dict(_bada_params(rng, eng), engine_type=eng, ac_type='GEN'))
+            fb = impl.Bada3FuelBurnModel(ap)
+            mass = rng.uniform(4e4, 8e4, n)
+            sgr = rng.uniform(20.0, 400.0, n)
+            sgr[rng.random(n) < 0.2] = rng.choice([0.0, 0.5, -3.0, 1.0, 0.999999])   # sub-unit / zero / negative: "infinite range"
+            dx = float(rng.uniform(100.0, 5e4)) if scalar_dx else rng.uniform(0.0, 5e4, max(n - 1, 0))
+            yield getattr(fb, mname), (mass, sgr, dx), {}
+    elif k.file == 'emissions/emission.py':
+        yield from _emission_vec_scenarios(impl, rng, k)
+
+
+def _emission_vec_scenarios(impl, rng, k):
+    return iter(())
+
+
+def check_vec(ctx, files: set[str] | None = None) -> dict:
+    """Validates the vector kernels: the real function is called on generated arrays, the generated list definition is run by
+    the driver on the same bit patterns (`kern.evalv`), results compared element by element."""
+    g, errors = pykern.translate_all()
+    specs = [k for k in pykern.SYM_KERNELS if pykern.is_vector_kernel(k, g) or (k.name in errors and (k.out == 'vec' or k.vec_attrs))]
+    specs = [k for k in specs if files is None or k.file in files]
+    summary = ctx.extra.setdefault('kernels', {})
+    sm = summary.setdefault('vector', {'kernels': 0, 'points': 0, 'elements': 0, 'mismatches': 0, 'untranslatable': {}})
+    for k in specs:
+        if k.name in errors:
+            sm['untranslatable'][k.name] = errors[k.name]
+            ctx.broken_obligation(f'kernel translator: {errors[k.name]}')
+    present = set(ctx.driver.outs([{'op': 'kern.names'}])[0]['present']) if ctx.driver.available() else set()
+    impl = Impl()
+    rng = make_rng(ctx.pid, ctx.seed, 'vec-kernels')
+    seen = set()
+    for k in specs:
+        if k.name in errors:
+            continue
+        if k.name not in present:
+            ctx.broken_obligation(f'kernel {k.name} missing from the built driver (stale build?)')
+            continue
+        try:
+            for fn, args, kwargs in vec_scenarios(impl, rng, k):
+                _run_vec(ctx, g, k, fn, args, kwargs, sm, seen)
+        except Exception as e:  # noqa: BLE001  the real API changed under the scenario generator
+            ctx.diverge('kernel scenario', {'kernel': k.name}, f'{type(e).__name__}: {e}')
+    sm['kernels'] = len(seen)
+    ctx.count('vec_kernel_points', sm['points'])
+    return sm
+
+
+def _run_vec(ctx, g, k, fn, args, kwargs, sm, seen):
+    bound = inspect.signature(fn).bind(*args, **kwargs)
+    bound.apply_defaults()
+    ns = {n: (np.array(v, dtype=float, copy=True) if isinstance(v, np.ndarray) else v) for n, v in bound.arguments.items()}
+    try:
+        with np.errstate(all='ignore'):
+            res = fn(*[np.array(a, copy=True) if isinstance(a, np.ndarray) else a for a in args], **kwargs)
+    except Exception as e:  # noqa: BLE001  refused by the real function (shape checks): nothing to compare
+        ctx.count('vec_scenario_refused:' + type(e).__name__)
+        return
+    pt = {'x': [], 'b': [], 'v': [], 'n': []}
+    try:
+        for i in k.inputs:
+            name, kind = (i, 'real') if isinstance(i, str) else i
+            val = ns[name]
+            if kind == 'vec':
+                pt['v'].append([f2u(float(x)) for x in np.asarray(val, dtype=float).ravel()])
+            elif kind == 'nat':
+                pt['n'].append(int(val))
+            elif kind == 'bool':
+                pt['b'].append(bool(val))
+            else:
+                pt['x'].append(f2u(float(val)))
+    except Exception as e:  # noqa: BLE001
+        ctx.diverge(f'kernel {k.name}', {'kernel': k.name}, f'inputs not observable: {type(e).__name__}: {e}')
+        return
+    want = [float(x) for x in np.asarray(res, dtype=float).ravel()]
+    got = ctx.driver.outs([{'op': 'kern.evalv', 'name': k.name, 'attrs': {}, 'vattrs': {}, 'pts': [pt]}])[0]
+    have = [u2f(x) for x in got[0]]
+    seen.add(k.name)
+    sm['points'] += 1
+    sm['elements'] += len(want)
+    ctx.evaluations += 1
+    ok = len(want) == len(have) and all(close(a, b, RTOL, 1e-300) for a, b in zip(want, have))
+    if not ok:
+        sm['mismatches'] += 1
+        if sm['mismatches'] <= 5:
+            ctx.diverge(f'kernel {k.name} (vector translation of {k.file}:{k.func}) vs implementation',
+                        {'kernel': k.name, 'inputs': {n: (np.asarray(v).tolist() if isinstance(v, np.ndarray) else v) for n, v in ns.items() if n != 'self'}},
+                        f'implementation {want[:8]!r} vs translated kernel {have[:8]!r}')
